@@ -38,7 +38,7 @@ def lookup_rule(ctx, eng):
         cmpf = None
         for e in p.events:
             if e.kind == 'assume' and e.cond[0] == 'cmp0':
-                cmpf = T.show(e.cond)
+                cmpf = cm.show0(e.cond)
         kinds.setdefault(tuple(sorted(p.exc['names'])), set()).add((ob,
                                                                    cmpf))
     exp_no = {(True, '(-self.highest_outbound_stream_id + stream_id > 0)'),
@@ -77,7 +77,7 @@ def run(ctx, eng):
         ob = outbound_fact(p)
         last = [e for e in p.events if e.kind == 'assume'][-1]
         seen.setdefault(tuple(sorted(p.exc['names'])), set()).add(
-            (ob, T.show(last.cond)))
+            (ob, cm.show0(last.cond)))
         if any(e.kind in ('write', 'store') and e.frame == fi.qual
                for e in p.events):
             ctx.ob('ATOM.STR', fi.qual,
@@ -109,7 +109,7 @@ def run(ctx, eng):
     for p in cm.normal_paths(paths):
         n += 1
         ob = outbound_fact(p)
-        conds = [T.show(e.cond) for e in p.events if e.kind == 'assume']
+        conds = [cm.show0(e.cond) for e in p.events if e.kind == 'assume']
         need = ['(-self.highest_%s_stream_id + stream_id > 0)'
                 % ('outbound' if ob else 'inbound'),
                 '((stream_id % 2) == int(allowed_ids))',
@@ -119,7 +119,7 @@ def run(ctx, eng):
             if e.kind in ('write', 'store') and e.frame == fi.qual:
                 first_w = i
                 break
-        before = [T.show(e.cond) for e in p.events[:first_w]
+        before = [cm.show0(e.cond) for e in p.events[:first_w]
                   if e.kind == 'assume']
         for c in need:
             if c not in conds:
@@ -159,7 +159,7 @@ def run(ctx, eng):
                'raise paths write nothing', node=fi.node)
     # direction test
     fi2 = eng.m.func(H + '_stream_id_is_outbound')
-    ok = any(p.exit == 'return' and T.show(p.value) in (
+    ok = any(p.exit == 'return' and cm.show0(p.value) in (
         '((stream_id % 2) == int(self.config.client_side))',)
         for p in eng.I.run(fi2))
     ctx.ob('ARITH.direction', fi2.qual, 'outbound iff own parity', ok,
@@ -181,7 +181,7 @@ def run(ctx, eng):
                                  '_get_or_create_stream'):
                 a = e.kwargs.get('allowed_ids',
                                  e.args[1] if len(e.args) > 1 else None)
-                got.setdefault(name, set()).add(T.show(a) if a else '?')
+                got.setdefault(name, set()).add(cm.show0(a) if a else '?')
     # _get_or_create_stream forwards its argument
     f4 = eng.m.func(H + '_get_or_create_stream')
     fw = any(e.args[:2] == (('p', 'stream_id'), ('p', 'allowed_ids'))
@@ -213,7 +213,7 @@ def run(ctx, eng):
         hw = cs = None
         for e in p.events:
             if e.kind == 'assume':
-                s = T.show(e.cond)
+                s = cm.show0(e.cond)
                 if s == 'self.highest_outbound_stream_id':
                     hw = True
                 elif s == 'not self.highest_outbound_stream_id':
@@ -223,11 +223,11 @@ def run(ctx, eng):
                 elif s == 'not self.config.client_side':
                     cs = False
         if p.exit == 'return':
-            vals[(hw, cs)] = T.show(p.value)
+            vals[(hw, cs)] = cm.show0(p.value)
         elif cm.explicit_raise(p) is not None and \
                 p.exc['names'] == {'NoAvailableStreamIDError'}:
             last = [e for e in p.events if e.kind == 'assume'][-1]
-            exh.add(T.show(last.cond))
+            exh.add(cm.show0(last.cond))
     ok = vals.get((False, True)) == '1' and vals.get((False, False)) == '2' \
         and vals.get((True, None)) == 'self.highest_outbound_stream_id + 2'
     ctx.ob('ARITH.next-id', fi.qual, 'smallest unused id of own parity', ok,
